@@ -201,7 +201,7 @@ def _load_helper_mo(lit: LineIterator, n_basis: int, n_mo: int) -> dict:
         "mo_type": np.empty(n_mo, int),
         "mo_energies": np.empty(n_mo, float),
         "mo_occs": np.empty(n_mo, float),
-        "mo_sym": np.empty(n_mo, str),
+        "mo_sym": np.empty(n_mo, "U16"),
         "mo_coeffs": np.empty([n_basis, n_mo], float),
     }
 
